@@ -11,6 +11,7 @@ from .C09 import d3_checker, d2_accumulator, d4_iterable, product_atoms, expand_
 from .C20 import fold
 from ._shared import raised_names
 from . import _trunc
+from ..pathcond import inline, canon
 
 EXPLANATION = (
     "(D1) append casts to the array's dtype and checks the whole trailing shape before writing (the "
@@ -179,8 +180,22 @@ def d5_cache(ctx, c, committer):
            and isinstance(n.target, ast.Subscript) and isinstance(n.target.slice, ast.Constant) and n.target.slice.value == 0]
     param = [p for p in committer.params if p != 'self'][0]
     ok = len(aug) == 1 and norm(aug[0].value) == param
-    ctx.decide(ok, 'R-FLOW', 'D5', committer, aug[0] if aug else None, 'first-axis-increment',
-               f'{committer.qualname} adds `{param}` to the first extent only', detail='shape update changed')
+    if not ok and not aug:
+        # tuple arithmetic: self._shape = (<shape>[0] + param,) + <shape>[1:]
+        for f_, v_, st_ in c.attr_exprs.get('_shape', []):
+            if f_ is committer:
+                t = canon(committer, v_).replace(' ', '')
+                for sh in ('self._shape', 'self.shape'):
+                    if t in (f'({sh}[0]+{param},)+{sh}[1:]', f'({param}+{sh}[0],)+{sh}[1:]',
+                             f'({sh}[0]+{param},*{sh}[1:])', f'({sh}[0]+{param},)+tuple({sh}[1:])'):
+                        ok = True
+    anyaug = [n for n in own_nodes(body) if isinstance(n, ast.AugAssign) and isinstance(n.target, ast.Subscript)]
+    if ok or anyaug:
+        ctx.decide(ok, 'R-FLOW', 'D5', committer, aug[0] if aug else None, 'first-axis-increment',
+                   f'{committer.qualname} adds `{param}` to the first extent only', detail='shape update changed')
+    else:
+        ctx.assume('R-FLOW', 'D5', committer, None, 'first-axis-increment',
+                   f'{committer.qualname} adds `{param}` to the first extent only', detail='shape update in a form the rule does not model')
     sz = [v for f, v, st in c.attr_exprs.get('_size', []) if f is committer]
     ok = bool(sz) and norm(sz[0]) in ('product(self._shape)', 'np.prod(self._shape)', 'product(self.shape)')
     ctx.decide(ok, 'R-FLOW', 'D5', committer, sz[0] if sz else None, 'size-from-shape',
